@@ -293,6 +293,54 @@ def apply(pool, op):
     raise ValueError(name)
 
 
+def scribble(op, result):
+    """Overwrite every array the caller received from ``op`` (results are
+    the caller's to edit).  Not done where the library documents the result
+    as a view of an input (cutout with copy=False) and for containers that
+    hold the pool's own objects (list slices, compounds).  Returns the number
+    of arrays overwritten."""
+    import astropy.units as u
+    from regions import RegionMask
+    name = op[0]
+    if name == 'mask_apply' and op[3] % 4 == 0:
+        return 0
+    if name == 'mask_values' and op[3] % 3 == 2 and op[2] % 3 == 0:
+        return 0
+    if name not in ('contains', 'to_mask', 'mask_apply', 'mask_values',
+                    'sky_contains', 'combine', 'rotate', 'copy', 'to_pixel'):
+        return 0
+    n = 0
+
+    def arr(a):
+        nonlocal n
+        if isinstance(a, np.ndarray) and a.size and a.flags.writeable:
+            if a.dtype == bool:
+                a[...] = ~a
+            else:
+                a[...] = np.asarray(-7.25).astype(a.dtype)
+            n += 1
+
+    def walk(v):
+        if isinstance(v, u.Quantity):
+            if v.shape:
+                arr(v.view(np.ndarray))
+        elif isinstance(v, np.ndarray):
+            arr(v)
+        elif isinstance(v, RegionMask):
+            arr(v.data)
+        elif isinstance(v, (list, tuple)):
+            for x in v:
+                walk(x)
+        elif name in ('rotate', 'copy', 'to_pixel') and hasattr(v, '_params'):
+            verts = getattr(v, 'vertices', None)
+            if verts is not None and hasattr(verts, 'x'):
+                arr(verts.x)
+                arr(verts.y)
+
+    walk(result)
+    return n
+
+
 def module_tables():
     """Fingerprint of the module-level tables the parsers/writers consult."""
     from regions.core.registry import RegionsRegistry
